@@ -115,6 +115,7 @@ def run(ck):
     b = ck.build('plain')
     ck.gen(['gen_nvmconsts', 'gen_runnerflags'])
     ck.prove()
+    nvmlib.coqchk(ck)
     ref = ck.nvref('c12')
     probe = ck.probe('nvm_probe.c', 'asan')
     rng = ck.rng
@@ -323,7 +324,8 @@ def run(ck):
     fl = nvmlib.gen_flags()
     ck.extra['generated_flags'] = fl
     ck.extra['live_theorems'] = ('C12_load_rejects_extension' if fl.get('reject_trailing') else 'C12_load_rejects_extension_refuted(_general)') + ' (the other direction is vacuous on this tree)'
-    ck.extra['exhaustive'] = 'single-bit flips and truncations: exhaustive per file; bursts/tails: sampled'
+    ck.extra['exhaustive'] = False
+    ck.extra['exhaustive_note'] = 'single-bit flips and truncations: exhaustive per file; bursts/tails: sampled'
     ck.extra['input_distribution'] = dist
     ck.extra['header_bits_accepted_when_flipped'] = accepted_header_bits
     ck.extra['note_header_not_covered'] = ('flags, entry_point, section_count, string_pool_offset/length lie before the checksummed range: '
